@@ -33,7 +33,7 @@ use tachys::{
         style::Style,
     },
     renderer::native_dom::{self as nd, Element, Node},
-    view::any_view::AnyView,
+    view::{any_view::AnyView, iterators::StaticVec},
 };
 
 type S = String;
@@ -46,6 +46,10 @@ type P<A, C> = HtmlElement<el::P, A, C>;
 type Ul<A, C> = HtmlElement<el::Ul, A, C>;
 type Li<A, C> = HtmlElement<el::Li, A, C>;
 type Input<A> = HtmlElement<el::Input, A, ()>;
+type Textarea<A, C> = HtmlElement<el::Textarea, A, C>;
+type StyleEl<A, C> = HtmlElement<el::Style, A, C>;
+type Script<A, C> = HtmlElement<el::Script, A, C>;
+type Noscript<A, C> = HtmlElement<el::Noscript, A, C>;
 type Br = HtmlElement<el::Br, (), ()>;
 
 macro_rules! shapes {
@@ -148,6 +152,16 @@ fn install_shapes() {
         Sp<OPSty, Either<Div<(), ()>, P<(), (S,)>>>,
         // ... and of hooks/fix-c03-8.corpus.ops
         P<(), (S,)>, Vec<Div<(), ()>>, (Div<(), ()>, Div<(), ()>), Span<(), (S,)>,
+        // raw-text elements (script / style / textarea / noscript) with content that changes
+        Textarea<(), (S,)>, Textarea<(IdS,), (S, S)>, Textarea<(), (Str,)>, Textarea<(), (Option<S>,)>, Textarea<(ValueS,), (Cw,)>,
+        StyleEl<(), (S,)>, StyleEl<(IdS,), (Str, S)>, StyleEl<(), (Vec<S>,)>, Script<(), (S,)>, Script<(IdS,), (S, S)>,
+        Script<(), (Either<S, ()>,)>, Noscript<(), (S,)>, Noscript<(), (P<(), (S,)>,)>, Noscript<(IdS,), (S, Span<(TitleO,), (S,)>)>,
+        Noscript<(), (Vec<Li<(), (S,)>>,)>, Noscript<(), (AnyView,)>, (S, Textarea<(), (S,)>, S), Vec<Textarea<(), (S,)>>,
+        Option<StyleEl<(), (S,)>>, Either<Script<(), (S,)>, Noscript<(), (S,)>>, Div<(), (Textarea<(), (S,)>, Script<(), (S,)>)>,
+        // StaticVec (no marker node): at top level and as the one child of a top-level element
+        StaticVec<S>, StaticVec<Div<(IdS,), (S,)>>, StaticVec<Option<S>>, StaticVec<AnyView>, StaticVec<Vec<S>>, StaticVec<(S, S)>,
+        Div<(), (StaticVec<S>,)>, Div<(IdS, TCls), (StaticVec<Span<(), (S,)>>,)>, Ul<(), (StaticVec<Li<(TitleO,), (S,)>>,)>,
+        Div<(Cls,), (StaticVec<AnyView>,)>, P<(), (StaticVec<Either<S, Span<(), (S,)>>>,)>,
         // keyed
         KeyedList, (S, KeyedList, S), Ul<(IdS,), (KeyedList,)>, Option<KeyedList>,
     ]);
@@ -344,7 +358,7 @@ fn gen(seed: u64, n: usize, path: &str, tier: &str) -> std::io::Result<()> {
     let lean_keyed = std::env::var("C03_KEYED").map(|v| v != "0").unwrap_or(LEAN_HAS_KEYED);
     let tops: Vec<TyD> =
         registry().iter().map(|s| s.ty.clone()).filter(|t| lean_keyed || !t.has_keyed()).collect();
-    let mut any_tys: Vec<TyD> = tops.iter().filter(|t| !t.has_arc() && !t.has_oco() && !t.has_spread_any()).cloned().collect();
+    let mut any_tys: Vec<TyD> = tops.iter().filter(|t| !t.has_arc() && !t.has_oco() && !t.has_spread_any() && !t.has_svec()).cloned().collect();
     any_tys.sort_by_key(|t| t.depth());
     let max_rebuilds = if tier == "thorough" { 6 } else { 4 };
     let spread_any_ok = std::env::var("C03_SPREAD_ANY").map(|v| v != "0").unwrap_or(SPREAD_ANY_REPAIRED);
@@ -354,7 +368,10 @@ fn gen(seed: u64, n: usize, path: &str, tier: &str) -> std::io::Result<()> {
         let ty = if i < tops.len() { tops[i].clone() } else { ty };
         let tame = rng.chance(3, 4);
         writeln!(f, "case g{i}")?;
-        writeln!(f, "init {} {}", rng.pick(SIBS), rng.pick(SIBS))?;
+        // a top-level StaticVec re-mounts itself at the END of its parent on every rebuild
+        // (`StaticVec::rebuild`, no marker node): it is generated as the LAST child only
+        let post = if matches!(ty, TyD::SVec(_)) { "-" } else { *rng.pick(SIBS) };
+        writeln!(f, "init {} {}", rng.pick(SIBS), post)?;
         let mut g = Gen {
             rng: &mut rng,
             any_tys: &any_tys,
